@@ -165,6 +165,17 @@ def lib_islice(ip, st, pos, kws):
         return []
     s_t, e_t, has, k_t = a
     if kind == "arith":
+        if getattr(cell, "fresh_count", False) and len(pos) == 2 and not cell.has_stop.s == "true" \
+                and not (cell.nextval.s == "0" and term_of_step(cell.step).s == "1"):
+            # islice(count(a, step), n) over a NEW count: the n values a + i*step, i < n (numbers are mathematical: the
+            # repeated addition count() performs is a + i*step).  The count object itself is used up here: it is replaced
+            # by a cell no other operation accepts, so a later use of it is out-of-subset instead of wrong.
+            a0, k0 = cell.nextval, term_of_step(cell.step)
+            n0 = ITE(CMP("<", e_t, I(0)), I(0), e_t)
+            dead = IterCell(None, I(0))
+            dead.kind = "used-up-count"
+            st.heap[it.cid] = dead
+            return [(st, ip.new_cell(st, IterCell(View(n0, lambda i: Num(ADD(a0, MUL(k0, i)))), I(0))))]
         if not (getattr(cell, "fresh_count", False) and cell.nextval.s == "0" and term_of_step(cell.step).s == "1"):
             raise U("islice over an arithmetic iterator other than a new itertools.count(0)")
         nc = IterCell(None, I(0))
